@@ -232,7 +232,7 @@ def run_job(job, rec):
 
         x0 = lo + wid * rng.uniform(0.02, 0.98, size=(n0, d))
         y0 = np.array([objective(p) for p in x0])
-        err0 = np.full(n0, 0.03 * ysc)
+        err0 = ysc * 10.0 ** rng.uniform(-2.5, -1.0, size=n0)   # heteroscedastic: an error attached to the wrong datum is visible
         form = str(rng.choice(["2d", "list", "flat1d"])) if d == 1 else str(rng.choice(["2d", "list"]))
         xa = x0.copy() if form == "2d" else [[float(v) for v in r] for r in x0] if form == "list" else x0[:, 0].copy()
         ya = y0.copy() if form != "list" else [float(v) for v in y0]
@@ -247,7 +247,7 @@ def run_job(job, rec):
             continue
         rec.check([snapshot(v) for v in (xa, ya, ea)] == snaps, "caller-array-modified",
                   "constructing GpOptimiser changed the shape or content of the caller's arrays", octx)
-        all_x, all_y = [r.copy() for r in x0], list(y0)
+        all_x, all_y, all_err = [r.copy() for r in x0], list(y0), list(err0)
         for it in range(3 if opt_name == "bfgs" else 2):
             prop = guarded(opt.propose_evaluation)
             rec.count("proposals:" + opt_name)
@@ -263,7 +263,9 @@ def run_job(job, rec):
             nform = str(rng.choice(["as_returned", "array", "list", "row"]))
             nx = prop if nform == "as_returned" else pv.copy() if nform == "array" else [float(v) for v in pv] if nform == "list" else pv.reshape(1, d).copy()
             nyv = ny if rng.random() < 0.5 else np.array([ny])
-            nerr = 0.03 * ysc if rng.random() < 0.5 else np.array([0.03 * ysc])
+            ne_val = float(ysc * 10.0 ** rng.uniform(-2.5, -1.0))
+            nerr = ne_val if rng.random() < 0.5 else np.array([ne_val])
+            all_err.append(ne_val)
             holders = [v for v in (nx, nyv, nerr) if isinstance(v, np.ndarray)]
             hs = [snapshot(v) for v in holders]
             r = guarded(opt.add_evaluation, nx, nyv, new_y_err=nerr)
@@ -281,7 +283,7 @@ def run_job(job, rec):
             rec.check(opt.acquisition.gp is opt.gp and float(opt.acquisition.mu_max) == max(all_y), "incumbent-not-updated",
                       lambda: f"acquisition incumbent {opt.acquisition.mu_max!r} but max of the data is {max(all_y)!r}", octx)
             ge = np.sqrt(np.diag(np.asarray(opt.gp.sig, float)))
-            rec.check(ge.shape == (len(all_y),) and bool(np.allclose(ge, 0.03 * ysc, rtol=1e-12)), "error-not-in-model",
+            rec.check(ge.shape == (len(all_y),) and bool(np.allclose(ge, np.array(all_err), rtol=1e-12)), "error-not-in-model",
                       "the data errors held by the fitted model are not those supplied", octx)
             rec.count("optimiser_iterations")
             rec.case(digest("opt", x0, y0, opt_name, acq_cls.__name__, it))
